@@ -31,6 +31,14 @@ fn next_ver(v: i64) -> i64 {
     }
 }
 
+fn next_bver(v: i64) -> i64 {
+    if v == 10 {
+        11
+    } else {
+        10
+    }
+}
+
 fn open(path: &Path, ps: u64) -> Result<DB, String> {
     match catch_unwind(AssertUnwindSafe(|| OpenOptions::new().pagesize(ps).num_pages(64).open(path))) {
         Ok(Ok(db)) => Ok(db),
@@ -40,14 +48,31 @@ fn open(path: &Path, ps: u64) -> Result<DB, String> {
 }
 
 /// reads through one bucket handle: get of every key, then a full scan
+/// the value of a nested bucket's entry as the reference sees it: 10 + the version stored inside
+/// (deep: read it; otherwise -- inside the write transaction, where opening the nested bucket would
+/// itself change what commit does -- only the kind is compared)
+fn bval(b: &jammdb::Bucket, name: &[u8], prof: &Profile, deep: bool, exp: i64) -> i64 {
+    if !deep {
+        return if exp >= 10 { exp } else { 10 };
+    }
+    match b.get_bucket(name.to_vec()) {
+        Ok(n) => match n.get("x") {
+            Some(Data::KeyValue(kv)) => 10 + prof.val_id(kv.value()),
+            _ => -8,
+        },
+        Err(_) => -7,
+    }
+}
+
 fn read_all(b: &jammdb::Bucket, prof: &Profile, nkeys: i64, rf: &Ref, at: &str, problems: &mut Vec<Value>) {
+    let deep = at == "after commit";
     for k in 1..=nkeys {
+        let exp = *rf.get(&k).unwrap_or(&0);
         let got = match b.get(prof.key(k)) {
             Some(Data::KeyValue(kv)) => prof.val_id(kv.value()),
-            Some(_) => -9,
+            Some(Data::Bucket(n)) => bval(b, n.name(), prof, deep, exp),
             None => 0,
         };
-        let exp = *rf.get(&k).unwrap_or(&0);
         if got != exp {
             problems.push(json!({"kind":"get","at":at,"key":k,"got":got,"exp":exp}));
         }
@@ -56,7 +81,10 @@ fn read_all(b: &jammdb::Bucket, prof: &Profile, nkeys: i64, rf: &Ref, at: &str, 
     for d in b.cursor() {
         match d {
             Data::KeyValue(kv) => scan.push(json!([prof.key_id(kv.key()), prof.val_id(kv.value())])),
-            _ => scan.push(json!([-9, -9])),
+            Data::Bucket(n) => {
+                let k = prof.key_id(n.name());
+                scan.push(json!([k, bval(b, n.name(), prof, deep, *rf.get(&k).unwrap_or(&0))]))
+            }
         }
         if scan.len() > 4 * nkeys as usize + 8 {
             break;
@@ -75,7 +103,7 @@ fn read_all(b: &jammdb::Bucket, prof: &Profile, nkeys: i64, rf: &Ref, at: &str, 
         for d in c {
             match d {
                 Data::KeyValue(kv) => got.push(prof.key_id(kv.key())),
-                _ => got.push(-9),
+                Data::Bucket(n) => got.push(prof.key_id(n.name())),
             }
             if got.len() > 4 * nkeys as usize + 8 {
                 break;
@@ -114,6 +142,19 @@ fn run_tx(db: &DB, prof: &Profile, nkeys: i64, ops: &[(String, i64)], rf: &mut R
                     let v = next_ver(*rf.get(k).unwrap_or(&0));
                     b.put(prof.key(*k), prof.val(v)).map_err(|e| format!("put: {}", e))?;
                     rf.insert(*k, v);
+                } else if kind == "mkb" {
+                    // a nested bucket; its content carries the version (10: x = value 0, 11: x = value 1)
+                    let n = b.create_bucket(prof.key(*k)).map_err(|e| format!("create_bucket: {}", e))?;
+                    n.put("x", prof.val(0)).map_err(|e| format!("put in nested: {}", e))?;
+                    rf.insert(*k, 10);
+                } else if kind == "touch" {
+                    let v = next_bver(*rf.get(k).unwrap_or(&0));
+                    let n = b.get_bucket(prof.key(*k)).map_err(|e| format!("get_bucket: {}", e))?;
+                    n.put("x", prof.val(v - 10)).map_err(|e| format!("put in nested: {}", e))?;
+                    rf.insert(*k, v);
+                } else if kind == "delb" {
+                    b.delete_bucket(prof.key(*k)).map_err(|e| format!("delete_bucket: {}", e))?;
+                    rf.remove(k);
                 } else {
                     let had = rf.remove(k).is_some();
                     match b.delete(prof.key(*k)) {
